@@ -58,6 +58,7 @@ theorem term_supp : ∀ (t : Term V), t.noFlat = true → ∀ (β β' : Bnd V) (
     simp only [evalTerm, List.mem_map] at h
     obtain ⟨p, hp, he⟩ := h; cases he; exact ih hf β p.1 p.2 hp w
   | flatten id t _ => intro hf; simp [Term.noFlat] at hf
+  | concat id t _ => intro hf; simp [Term.noFlat] at hf
 
 theorem args_supp : ∀ (ts : List (Term V)), Terms.noFlat ts = true → ∀ (β β' : Bnd V) (as : List V),
     (β', as) ∈ evalArgs W D ts β →
